@@ -503,3 +503,260 @@ def shrink(env, h, mode, budget=400):
     w = fails(small)
     if w: cur, why = small, w
     return cur, why
+
+# --------------------------------------------------------------------------------------------------------------
+# the Lean side: regenerate what is extracted from the sources, build, audit
+
+import fcntl
+class LeanLock:
+    def __enter__(self):
+        self.f = open(os.path.join(LEAN, '.verif.lock'), 'w'); fcntl.flock(self.f, fcntl.LOCK_EX); return self
+    def __exit__(self, *a):
+        fcntl.flock(self.f, fcntl.LOCK_UN); self.f.close()
+
+GEN_FILE = os.path.join(LEAN, 'XrlCrystals', 'Gen', 'Builtin.lean')
+
+def builtin_names_from_table(inline_path):
+    """names of `__Crystal_arr[]` in the generated xrayglob_inline.c, in table order"""
+    txt = open(inline_path, errors='replace').read()
+    m = re.search(r'static Crystal_Struct __Crystal_arr\[CRYSTALARRAY_MAX\] = \{(.*?)\n\};', txt, re.S)
+    if not m: raise BuildError('__Crystal_arr not found in the generated table file')
+    names = re.findall(r'^\s*\{"([^"]*)"', m.group(1), re.M)
+    n = re.search(r'Crystal_Array Crystal_arr = \{(\d+), (\d+|CRYSTALARRAY_MAX), __Crystal_arr\};', txt)
+    if not n or int(n.group(1)) != len(names): raise BuildError('Crystal_arr header does not match its table')
+    return names, n.group(2)
+
+def regenerate(env):
+    names, alloc = builtin_names_from_table(env.sc.path('b', 'xrayglob_inline.c'))
+    dumped = [l.split(' ')[1] for l in env.builtin]
+    if names != dumped: raise BuildError('built-in names of the table file and of the running library differ')
+    if alloc not in ('CRYSTALARRAY_MAX', str(env.bcap)): raise BuildError('Crystal_arr.n_alloc is %s, CRYSTALARRAY_MAX is %d' % (alloc, env.bcap))
+    esc = lambda s: '"' + s.replace('\\', '\\\\').replace('"', '\\"') + '"'
+    src = ('/- GENERATED by props/c14.py from the table file produced by prdata and include/xraylib-defs.h of the working tree;\n'
+           '   never edited, git-ignored.  The start state of `crystals_refine_from_start` is the shipped collection:\n'
+           '   its hypotheses (strictly sorted names, within CRYSTALARRAY_MAX) are decided here by the kernel. -/\n'
+           'namespace XrlCrystals.Gen\n'
+           'def CRYSTALARRAY_MAX : Nat := %d\n'
+           'def builtinNames : List String := [%s]\n'
+           'theorem builtin_names_sorted : builtinNames.Pairwise (· < ·) := by decide\n'
+           'theorem builtin_fits : builtinNames.length ≤ CRYSTALARRAY_MAX := by decide\n'
+           'end XrlCrystals.Gen\n') % (env.bcap, ', '.join(esc(n) for n in names))
+    os.makedirs(os.path.dirname(GEN_FILE), exist_ok=True)
+    old = open(GEN_FILE).read() if os.path.exists(GEN_FILE) else None
+    if old != src: open(GEN_FILE, 'w').write(src)
+    return names
+
+def lean_sources():
+    out = [os.path.join(LEAN, 'Driver.lean')]
+    for root, dirs, files in os.walk(os.path.join(LEAN, 'XrlCrystals')):
+        out += [os.path.join(root, f) for f in files if f.endswith('.lean')]
+    return sorted(out)
+
+def lake(targets):
+    p = subprocess.run(['lake', 'build'] + targets, cwd=LEAN, capture_output=True, text=True)
+    return p.returncode == 0, p.stdout + p.stderr
+
+def print_axioms(sc, modules, names):
+    src = ''.join('import %s\n' % m for m in modules) + ''.join('#print axioms %s\n' % n for n in names)
+    path = sc.path('Audit.lean'); open(path, 'w').write(src)
+    p = subprocess.run(['lake', 'env', 'lean', path], cwd=LEAN, capture_output=True, text=True)
+    res = {}
+    txt = p.stdout + p.stderr
+    for m in re.finditer(r"'([^']+)' depends on axioms: \[([^\]]*)\]|'([^']+)' does not depend on any axioms", txt):
+        if m.group(1): res[m.group(1)] = [a.strip() for a in m.group(2).replace('\n', ' ').split(',') if a.strip()]
+        else: res[m.group(3)] = []
+    return res, txt
+
+# --------------------------------------------------------------------------------------------------------------
+# replay files, corpus
+
+def replay_body(h, mode, why, env=None):
+    lines, files = h.lines([])
+    b = '# C14 %s\n# %s\n' % ('VIOLATION: the library does not do what the property says (specification vs implementation)' if mode == 'spec'
+                               else 'model and implementation disagree (correspondence)', why.replace('\n', ' ')[:1500])
+    b += '# history (syntax: harness/c14drv.c); replay with ./check C14 --replay <this file>\n'
+    for l in lines: b += '#   ' + (l if len(l) < 400 else l[:400] + ' …') + '\n'
+    for i, f in enumerate(files):
+        b += '# file f%d.dat:\n' % i + ''.join('#   | ' + x + '\n' for x in (f.splitlines()[:40] + (['…'] if f.count('\n') > 40 else [])))
+    b += '#mode ' + mode + '\n#json ' + h.to_json() + '\n'
+    return b
+
+def load_histories(path):
+    out = []
+    mode = 'spec'
+    for l in open(path):
+        if l.startswith('#mode '): mode = l.split()[1]
+        if l.startswith('#json '): out.append((Hist.from_json(l[6:]), mode))
+    return out
+
+def corpus():
+    out = []
+    if os.path.isdir(CORPUS):
+        for f in sorted(os.listdir(CORPUS)):
+            if f.startswith(ID + '-') and f.endswith('.lines'):
+                out += [h for h, _ in load_histories(os.path.join(CORPUS, f))]
+    return out
+
+# --------------------------------------------------------------------------------------------------------------
+
+TRUSTED = [
+    'Lean 4.33 kernel (lake build; thorough tier: leanchecker re-check of XrlCrystals.Props.C14); axioms allowed: propext, Classical.choice, Quot.sound (audited by #print axioms on every run)',
+    'Mathlib (module-wise, proofs only: Data.Multiset.*, Data.List.Sort, Data.String.Basic)',
+    'hand model lean-crystals/XrlCrystals/Hand/{Crystals,Caller}.lean of src/crystal_diffraction.c: trusted only as far as the correspondence run exercises it (same histories through harness/c14drv.c on the ASan+UBSan build of the working tree, every observable compared after every operation)',
+    'libc by contract: qsort (sorts with the comparator), bsearch (finds an equal element of a sorted vector), realloc (as allocate-copy-free), strdup, and the tokenisation fgets/sscanf/fscanf of Crystal_ReadFile (the model takes the parsed entries; the generator predicts them and the prediction is checked against the library on every file)',
+    'not modelled: allocation failure (malloc returning NULL), IEEE-754 (doubles are only copied; the volume formula is a parameter, property C13), lines longer than 99 characters and a Biso column in crystal files, Crystal_Struct arguments with a NULL name or a wrong n_atom built by the caller',
+    'AddressSanitizer/UBSan, the --wrap allocation counter and /proc/self/fd: observers in the correspondence check and the violation search only',
+]
+
+class C14:
+    id = ID
+    level = 'proof'
+
+    def run(self, tier, seed, replay=None):
+        t0 = time.time()
+        timings = {}; notes = []
+        sc = Scratch()
+        try:
+            return self._run(sc, tier, seed, replay, t0, timings, notes)
+        except BuildError as e:
+            log('BUILD ERROR', str(e)[:3000])
+            path = self.write_replay('check %s could not build the working tree or its own harness:\n%s\n' % (ID, str(e)[:4000]), 'txt')
+            print('VIOLATION property=%s replay=%s no-failing-input-found' % (ID, path))
+            self.evidence(tier, seed, t0, timings, notes, dict(obligations=1, discharged=0, checker_cmd='lake build ' + MODULE, trusted_base=TRUSTED,
+                          explanation='build failed: ' + str(e)[:500], evaluations=1, distinct_nontrivial=0), 1)
+            return 1
+        finally:
+            sc.__exit__(None, None, None)
+
+    def write_replay(self, body, suffix='lines'):
+        os.makedirs(core.REPLAY_DIR, exist_ok=True)
+        h = hashlib.sha256(body.encode()).hexdigest()[:12]
+        path = os.path.join(core.REPLAY_DIR, '%s-%s.%s' % (ID, h, suffix))
+        open(path, 'w').write(body)
+        return os.path.relpath(path, VERIF)
+
+    def evidence(self, tier, seed, t0, timings, notes, cov, violations):
+        os.makedirs(core.EVID_DIR, exist_ok=True)
+        ev = dict(property_id=ID, tier=tier, seed=seed, level=self.level, coverage=cov, wall_s=round(time.time() - t0, 2), violations=violations,
+                  assumptions=['the shipped collection is strictly sorted by name and within CRYSTALARRAY_MAX (decided by the kernel on the regenerated table, XrlCrystals.Gen.builtin_names_sorted / builtin_fits)',
+                               'histories inside the property use no handle after releasing it (the specification is undefined there; such histories are still run for the correspondence: sanitizer abort <=> model ub)'],
+                  timings=timings, notes=notes)
+        with open(os.path.join(core.EVID_DIR, ID + '.json'), 'w') as f: json.dump(ev, f, indent=1)
+
+    def _run(self, sc, tier, seed, replay, t0, timings, notes):
+        problems = []           # broken obligations / broken tie (no failing input by themselves)
+        # ---- 1. C artefacts from the working tree ---------------------------------------------------------------
+        t = time.time()
+        env = Env(sc); env.build_c(); timings['c_build'] = round(time.time() - t, 2)
+        # ---- 2. regenerate, lake build ---------------------------------------------------------------------------
+        t = time.time()
+        with LeanLock():
+            names = regenerate(env)
+            ok_exe, log_exe = lake(['c14-model'])
+            ok_props, log_props = lake([MODULE])
+            ok_gen, log_gen = lake(['XrlCrystals.Gen.Builtin'])
+        timings['lake_build'] = round(time.time() - t, 2)
+        if not ok_exe: raise BuildError('the model driver does not build: ' + log_exe[-3000:])
+        failing = []
+        if not ok_props:
+            failing = core.failing_theorems(log_props.replace(LEAN + '/', ''), PROPS_FILE) or ['(module %s does not build)' % MODULE]
+            problems.append('theorems that no longer check: %s\n%s' % (', '.join(failing), '\n'.join(re.findall(r'error: [^\n]*', log_props)[:8])))
+        if not ok_gen:
+            problems.append('the shipped collection is not strictly sorted by name or does not fit CRYSTALARRAY_MAX (XrlCrystals.Gen.Builtin does not build): ' +
+                            ' '.join(re.findall(r'error: [^\n]*', log_gen)[:3]))
+        # ---- 3. audit -------------------------------------------------------------------------------------------
+        t = time.time()
+        bad = core.audit_sources(lean_sources())
+        if bad: problems.append('forbidden construct in Lean sources: ' + '; '.join(bad[:5]))
+        theorems = core.theorems_of(PROPS_FILE, NAMESPACE)
+        for req in REQUIRED_THEOREMS:
+            if NAMESPACE + '.' + req not in theorems: problems.append('property theorem %s is missing from %s' % (req, MODULE))
+        gen_theorems = ['XrlCrystals.Gen.builtin_names_sorted', 'XrlCrystals.Gen.builtin_fits']
+        axioms = {}
+        if ok_props and ok_gen:
+            axioms, txt = print_axioms(sc, [MODULE, 'XrlCrystals.Gen.Builtin'], theorems + gen_theorems)
+            for th in theorems + gen_theorems:
+                if th not in axioms: problems.append('axiom audit: no report for %s' % th)
+                else:
+                    extra = set(axioms[th]) - core.ALLOWED_AXIOMS
+                    if extra: problems.append('axiom audit: %s depends on %s' % (th, sorted(extra)))
+        src = core.strip_comments(open(PROPS_FILE).read())
+        n_examples = len(re.findall(r'^\s*example\b', src, re.M))
+        if n_examples < 5: problems.append('non-vacuity examples missing from %s (found %d)' % (MODULE, n_examples))
+        if tier == 'thorough' and ok_props:
+            p = subprocess.run(['lake', 'env', 'leanchecker', MODULE], cwd=LEAN, capture_output=True, text=True)
+            if p.returncode != 0: problems.append('leanchecker rejected %s: %s' % (MODULE, (p.stdout + p.stderr)[-400:]))
+            else: notes.append('leanchecker re-checked ' + MODULE)
+        timings['audit'] = round(time.time() - t, 2)
+        # ---- 5. correspondence + violation search ----------------------------------------------------------------
+        t = time.time()
+        stats = {}
+        rng = random.Random(seed * 1000003 + 14)
+        if replay:
+            hists = [h for h, _ in load_histories(replay)]
+            if not hists: raise BuildError('no history (#json line) in replay file ' + replay)
+        else:
+            n = 260 if tier == 'quick' else 3000
+            kinds = ['valid'] * 6 + ['misuse'] * 2 + ['builtin_full']
+            hists = corpus() + [gen_history(rng, rng.choice(kinds)) for _ in range(n)]
+        bad = []
+        for i in range(0, len(hists), 400):
+            bad += check_histories(env, hists[i:i + 400], stats)
+        timings['correspondence_and_search'] = round(time.time() - t, 2)
+        viol = [(h, why) for h, mode, why in bad if mode == 'spec']
+        tie = [(h, why) for h, mode, why in bad if mode == 'model']
+        # ---- report ---------------------------------------------------------------------------------------------
+        exit_code = 0
+        t = time.time()
+        if viol:
+            # one minimal history per distinct failure (first line of the difference without addresses), at most 4 shrunk
+            seen = {}
+            for h, why in sorted(viol, key=lambda x: len(x[0].ops)):
+                key = re.sub(r'0x[0-9a-f]+|\d+', '#', why)[:90]
+                if key not in seen: seen[key] = (h, why)
+            body = ''
+            for k, (h, why) in list(seen.items())[:4]:
+                sh, w = shrink(env, h, 'spec', budget=250 if tier == 'quick' else 800)
+                body += replay_body(sh, 'spec', w) + '\n'
+            if problems or tie: body += '# also broken: %s\n' % json.dumps(dict(obligations=problems, tie=[w for _, w in tie[:3]]))[:3000]
+            path = self.write_replay(body)
+            print('VIOLATION property=%s replay=%s' % (ID, path))
+            exit_code = 1
+        elif tie or problems:
+            body = '# %s is no longer shown to hold; the violation search (specification vs library, %d histories) found no failing history\n' % (ID, stats.get('histories', 0))
+            for pb in problems: body += '# ' + pb.replace('\n', '\n# ') + '\n'
+            for h, why in tie[:2]:
+                sh, w = shrink(env, h, 'model', budget=150)
+                body += replay_body(sh, 'model', w) + '\n'
+            path = self.write_replay(body)
+            print('VIOLATION property=%s replay=%s no-failing-input-found' % (ID, path))
+            exit_code = 1
+        timings['shrink'] = round(time.time() - t, 2)
+        n_dis = 0 if not ok_props else sum(1 for th in theorems if th in axioms and not (set(axioms[th]) - core.ALLOWED_AXIOMS))
+        nontriv = len(stats.pop('_nontrivial', set()))
+        samples = []
+        for h in hists[-2:]:
+            ls, fs = h.lines([])
+            samples.append(dict(kind=h.kind, ops=len(h.ops), history=[l[:200] for l in ls[:12]], files=len(fs)))
+        cov = dict(obligations=max(len(theorems), 1), discharged=n_dis,
+                   checker_cmd='cd lean-crystals && lake build %s XrlCrystals.Gen.Builtin  (then `#print axioms` on every theorem of the module)' % MODULE,
+                   trusted_base=TRUSTED, theorems=[dict(name=th, axioms=axioms.get(th)) for th in theorems + gen_theorems],
+                   traces_validated_against_impl=stats.get('histories', 0), evaluations=stats.get('ops', 0), distinct_nontrivial=nontriv,
+                   rule='seeded random operation histories (length 6..200 + release epilogue) over 1-3 user arrays of initial capacity 0..12 (and -1), the built-in array '
+                        '(NULL) incl. a kind that fills it to its capacity, literal crystals (names from a pool of %d incl. prefixes/case/shipped names, cells, 0-8 atoms), '
+                        'handed-out copies as sources, generated crystal files (well-formed, 6 kinds of corruption, duplicate names, long names, three kinds of file end), '
+                        'a "misuse" kind with stale handles (sanitizer abort <=> model ub); every history is run on the library (fresh process), the model and the '
+                        'specification; after EVERY operation: return value, error, live blocks, open files, raw vector (count, capacity, order), listing, a lookup of every '
+                        'pool name in every live collection, every handed-out copy.  non-trivial = distinct histories with at least one successful addition or file load' % len(POOL),
+                   samples=samples, histories=stats.get('histories', 0), lines_compared=stats.get('lines', 0), kinds=stats.get('kinds', {}),
+                   distribution=stats.get('dist', {}), errors_hit=stats.get('errors', {}), ub_agreed=stats.get('ub_agreed', 0), impl_aborts=stats.get('impl_aborts', 0),
+                   max_user_array=stats.get('max_n', 0), max_capacity=stats.get('max_alloc', 0), max_builtin=stats.get('max_builtin', 0),
+                   max_rel_dev_volume=stats.get('max_rel_dev', 0.0), builtin_crystals=len(names), CRYSTALARRAY_MAX=env.bcap,
+                   correspondence_mismatches=len(tie), search_violations=len(viol), nonvacuity_examples=n_examples,
+                   broken=dict(obligations=problems, tie=[w for _, w in tie[:5]]), repo=REPO)
+        self.evidence(tier, seed, t0, timings, notes, cov, len(viol) + (1 if (tie or problems) and not viol else 0))
+        log('%s %s: exit %d (%.1fs; theorems %d/%d; %d histories, %d ops, %d lines; tie mismatches %d; violations %d)' % (
+            ID, tier, exit_code, time.time() - t0, n_dis, len(theorems), stats.get('histories', 0), stats.get('ops', 0), stats.get('lines', 0), len(tie), len(viol)))
+        return exit_code
+
+CHECK = C14()
